@@ -10,3 +10,37 @@ Lemma env_discipline : discipline env_shared env_all env_entry_points = true.
 Proof. vm_compute. reflexivity. Qed.
 Lemma env_all_fn_ok : all_fn_ok env_shared env_all = true.
 Proof. vm_compute. reflexivity. Qed.
+
+(** ---- from the discipline to race freedom of a scope ---- *)
+From Lisp Require Import MutexProofs BaseProofs.
+
+(** every entry point of env.go is accepted when entered with the scope's mutex free, against the final table *)
+Definition entries_fn_ok (shared : str -> bool) (fns : list (str * list str)) (entries : list str) : bool :=
+  let tbl := final_table shared fns in
+  forallb (fun n => forallb (fun p => negb (str_eqb (fst p) n) || fn_ok shared tbl MFree (parse (snd p))) fns) entries.
+
+Lemma env_entries_fn_ok : entries_fn_ok env_shared env_all env_entry_points = true.
+Proof. vm_compute. reflexivity. Qed.
+
+(** a path through an entry point of env.go *)
+Definition env_entry_path (tr : list ev) : Prop :=
+  exists name code r, In (name, code) env_all /\ In name env_entry_points /\ LocksetProofs.run (parse code) tr r.
+
+(** ANY number of threads, each running ANY path of ANY entry point of env.go on one scope, under
+    EVERY schedule: a thread about to write the bindings map never coexists with another thread
+    about to read or write it *)
+Theorem env_scope_race_free traces sched t u tht thu :
+  (forall tr, In tr traces -> env_entry_path tr) ->
+  let tbl := final_table env_shared env_all in
+  let s := grun env_shared tbl (ginit traces) sched in
+  nth_error (g_threads s) t = Some tht -> nth_error (g_threads s) u = Some thu ->
+  next_is_write env_shared tht -> next_is_access env_shared thu -> t = u.
+Proof.
+  intros H tbl s. apply discipline_implies_race_freedom.
+  intros tr Hin. destruct (H tr Hin) as (name & code & r & Hfn & Hent & Hrun).
+  pose proof env_entries_fn_ok as E. unfold entries_fn_ok in E.
+  pose proof (proj1 (forallb_forall _ _) E name Hent) as E1.
+  pose proof (proj1 (forallb_forall _ _) E1 (name, code) Hfn) as E2. cbn [fst snd] in E2.
+  rewrite str_eqb_refl in E2. cbn [negb orb] in E2.
+  exact (fn_ok_sound env_shared (final_table env_shared env_all) MFree (parse code) E2 tr r Hrun).
+Qed.
